@@ -109,12 +109,26 @@ pub fn type_range(ty: &RType) -> (f64, f64) {
 
 pub fn range_spec(limits: Option<(Option<LimitVal>, Option<LimitVal>)>, ty: &RType) -> RangeSpec {
     if let Some((Some(a), Some(b))) = limits {
-        match (lim_f64(&a), lim_f64(&b)) {
-            (Some((ka, lo)), Some((kb, hi))) if ka == kb && lo.is_finite() && hi.is_finite() => return RangeSpec::Exact(lo, hi),
-            (None, None) => return RangeSpec::Unspecified, // ScaledInteger limits: no scale/offset in the limit node
-            (None, _) | (_, None) => return RangeSpec::Unspecified,
-            _ => return RangeSpec::Unspecified, // mixed kinds
-        }
+        // "the limits when both are given": each limit is a number of its own kind (integer, single, double); a
+        // scaled-integer limit is a raw value of a scaled-integer attribute (as the writer's defaults are)
+        let num = |l: &LimitVal| -> Option<f64> {
+            match (l, ty) {
+                (LimitVal::SI(v), RType::Scaled { scale, offset, .. }) => Some(*v as f64 * scale.0 + offset.0),
+                (LimitVal::SI(_), _) => None,
+                (other, _) => lim_f64(other).map(|(_, v)| v),
+            }
+        };
+        return match (num(&a), num(&b)) {
+            (Some(lo), Some(hi)) if lo.is_finite() && hi.is_finite() => {
+                if matches!((&a, &b), (LimitVal::SI(_), LimitVal::SI(_))) {
+                    // a negative scale reverses the order of the two ends
+                    RangeSpec::Exact(lo.min(hi), lo.max(hi))
+                } else {
+                    RangeSpec::Exact(lo, hi)
+                }
+            }
+            _ => RangeSpec::Unspecified, // a scaled-integer limit on another kind of attribute, or infinite limits
+        };
     }
     let (lo, hi) = type_range(ty);
     if lo.is_infinite() || hi.is_infinite() {
